@@ -37,6 +37,9 @@ def cli(argv, stdin=None, env=None, cwd=None, stdout=None, uid=None, close_stdou
                            preexec_fn=pre if need_pre else None, timeout=timeout)
     except subprocess.TimeoutExpired:
         return None, b"", b""
+    except PermissionError:
+        # the unprivileged child cannot reach the binary/scratch directory from here (e.g. a checkout under /root)
+        return "noperm", b"", b""
     return p.returncode, (p.stdout if stdout is None else b""), p.stderr
 
 
@@ -433,6 +436,9 @@ def faults_shard(args):
                 if out_handle:
                     out_handle.close()
             agg.evaluations += 1
+            if rc == "noperm":
+                agg.inconc("setuid_child_cannot_run_here")
+                continue
             if rc is None:
                 agg.inconc("timeout")
                 continue
